@@ -133,14 +133,30 @@ theorem splitChunks_le (limit : Nat) (p : Bytes) : ∀ q ∈ splitChunks limit p
     · simp [List.length_take]; omega
     · exact ih q hq
 
+/-- a payload limit under which every chunk length fits the 16-bit length field -/
+def GoodLimit (l : Nat) : Prop := 34 < l ∧ l ≤ 65535 + 34
+
+theorem payloadLimit_good (k : Kind) : GoodLimit k.payloadLimit := by
+  cases k <;> simp [Kind.payloadLimit, Kind.is2022, GoodLimit] <;> decide
+
 /-- `encode_payload` followed by the chunk decoder: the payload comes back, nothing is left,
 encoder and decoder authenticators end in the same state -/
-theorem payload_roundtrip (C : Crypto) (hC : C.Lawful) (a : Auth) (p : Bytes) :
-    run (chunkUnit C) ⟨a, .length⟩ (encPayload C a 0xffff p).1 =
-      ⟨⟨(encPayload C a 0xffff p).2, .length⟩, [], p, false⟩ := by
+theorem payload_roundtrip (C : Crypto) (hC : C.Lawful) (a : Auth) (l : Nat) (hl : GoodLimit l) (p : Bytes) :
+    run (chunkUnit C) ⟨a, .length⟩ (encPayload C a l p).1 =
+      ⟨⟨(encPayload C a l p).2, .length⟩, [], p, false⟩ := by
   unfold encPayload
-  have h := chunks_roundtrip C hC (splitChunks (chunkLimit 0xffff) p)
-    (fun q hq => by have := splitChunks_le _ p q hq; unfold chunkLimit at this; omega) a
-  rw [h, splitChunks_flatten _ (by unfold chunkLimit; omega)]
+  have h := chunks_roundtrip C hC (splitChunks (chunkLimit l) p)
+    (fun q hq => by have := splitChunks_le _ p q hq; unfold chunkLimit at this; unfold GoodLimit at hl; omega) a
+  rw [h, splitChunks_flatten _ (by unfold chunkLimit; unfold GoodLimit at hl; omega)]
+
+/-- sender limits of the specifications: a legacy chunk carries at most 0x3FFF bytes (SIP004), a
+2022 chunk at most 0xFFFF (SIP022) -/
+theorem chunk_limit_respected (k : Kind) (p : Bytes) :
+    ∀ q ∈ splitChunks (chunkLimit k.payloadLimit) p, q.length ≤ (if k.is2022 then 0xffff else 0x3fff) := by
+  intro q hq
+  have := splitChunks_le _ p q hq
+  have hl : chunkLimit k.payloadLimit ≤ (if k.is2022 then 0xffff else 0x3fff) := by
+    cases k <;> simp [Kind.payloadLimit, Kind.is2022, chunkLimit] <;> decide
+  omega
 
 end Octo.Ss
